@@ -120,6 +120,38 @@ theorem roundtrip_cross_bytes (cl : Str → Nat) (legacy : Bool) (cs : List (Cel
     rw [ssEncode_bytes_eq, parseStyledB_toks cl _ (good_ssEncode cl legacy cs (ul_of_wf cs hcs) ht)]
     exact (C18.roundtrip_ss_via_cells legacy cs hcs).1
 
+/-- **The parser's items for an encoded string are its token sequence** — so every token-level theorem of `Props/C18.lean`
+    (`encoded_shows_*`: a `Spec.sgr` terminal shows each cell's style; `ends_reset_*`; the emulator round trip) is a statement
+    about what the C02 parser model delivers for the bytes `EncodeCells` / `StyledString.Encode` write. -/
+theorem tokenize_encoded (cl : Str → Nat) (legacy : Bool) (cs : List (Cell Str)) (hcs : ∀ c ∈ cs, c.st.ulStyle ≤ 5) :
+    (TextOK cl (encodeCells legacy cs) → tokenize cl (encodeCellsB legacy cs) = (encodeCells legacy cs).map itemOf) ∧
+    (TextOK cl (ssEncode legacy cs) → tokenize cl (ssEncodeB legacy cs) = (ssEncode legacy cs).map itemOf) := by
+  constructor
+  · intro ht; rw [encodeCells_bytes_eq]; exact tokenize_toks cl _ (good_encodeCells cl legacy cs hcs ht)
+  · intro ht; rw [ssEncode_bytes_eq]; exact tokenize_toks cl _ (good_ssEncode cl legacy cs hcs ht)
+
+/-- **ends_reset over bytes**: after the whole string `EncodeCells` writes has gone through the parser, the style held by
+    `parseSGR` and the pen of the embedded terminal are the zero style. -/
+theorem ends_reset_cells_bytes (cl : Str → Nat) (legacy : Bool) (cs : List (Cell Str)) (hcs : ∀ c ∈ cs, c.st.wf)
+    (ht : TextOK cl (encodeCells legacy cs)) :
+    penOf parseSGR {} (tokenize cl (encodeCellsB legacy cs)) = .ok {} ∧
+    penOf emuSgr {} (tokenize cl (encodeCellsB legacy cs)) = .ok {} := by
+  rw [(tokenize_encoded cl legacy cs (ul_of_wf cs hcs)).1 ht, penOf_items, penOf_items]
+  exact C18.ends_reset_cells legacy cs hcs
+
+/-- The same for `StyledString.Encode`'s string read by the parser-based consumers. -/
+theorem ends_reset_ss_bytes (cl : Str → Nat) (legacy : Bool) (cs : List (Cell Str)) (hcs : ∀ c ∈ cs, c.st.wf)
+    (ht : TextOK cl (ssEncode legacy cs)) :
+    penOf parseSGR {} (tokenize cl (ssEncodeB legacy cs)) = .ok {} ∧
+    penOf emuSgr {} (tokenize cl (ssEncodeB legacy cs)) = .ok {} := by
+  rw [(tokenize_encoded cl legacy cs (ul_of_wf cs hcs)).2 ht, penOf_items, penOf_items]
+  exact ⟨ends_reset_generic parseSGR (ssDelta legacy)
+      (fun s n hs hn => delta_roundtrip_ss parseCfg C18.parseCfg_covers C18.parseCfg_legacy legacy s n hs hn)
+      (fun s => by rw [← simple_zero s]; exact int_empty parseCfg s C18.parseCfg_covers.zero) cs {} wf_default hcs,
+    ends_reset_generic emuSgr (ssDelta legacy)
+      (fun s n hs hn => delta_roundtrip_ss emuCfg C18.emuCfg_covers C18.emuCfg_legacy legacy s n hs hn)
+      (fun s => by rw [← simple_zero s]; exact int_empty emuCfg s C18.emuCfg_covers.zero) cs {} wf_default hcs⟩
+
 /-- **producers_consumers_agree over bytes**: the string `<any producible SGR sequence><a grapheme>` is read by
     `ParseStyledString` and by `NewStyledString` as the same single cell, whose style shows what `Spec.sgr`
     says the sequence means. -/
